@@ -27,3 +27,15 @@ Theorem C17_user_glyph_classes_are_left_alone : forall stmts hc hk,
   In GClassDef stmts -> td_classes (gdef_todo_of (Some stmts) hc hk) = false.
 Proof. exact user_classes_are_left_alone. Qed.
 Print Assumptions C17_user_glyph_classes_are_left_alone.
+
+(* ---- which comment is the insertion marker ---- *)
+From U2F Require Import Fea.Marker Fea.MarkerProofs.
+
+Theorem C17_marker_is_anchored_at_the_start : forall c,
+  is_marker c = true <-> exists ws rest, c = ws ++ MARK ++ rest /\ forallb is_ws ws = true.
+Proof. exact is_marker_spec. Qed.
+Print Assumptions C17_marker_is_anchored_at_the_start.
+
+Theorem C17_commented_out_marker_is_no_marker : forall rest, is_marker (35%Z :: 35%Z :: rest) = false.
+Proof. exact commented_out_marker_is_no_marker. Qed.
+Print Assumptions C17_commented_out_marker_is_no_marker.
